@@ -179,6 +179,7 @@ class World:
         self.xn = 0
         self.online: list[tuple] = []  # violations detected online
         self.nprogress = 0
+        self.registered: set = set()
         self.payloads: dict[str, tuple] = {}
         self.values: dict[str, int] = {}
 
@@ -191,6 +192,26 @@ class World:
         if kind in ('disp', 'pe_begin', 'pe_end', 'enter', 'exit', 'deq'):
             self.nprogress += 1
         return self.seq
+
+    def register_handler(self, hi, actor='main'):
+        """bus.on(...) for scenario handler hi (handlers marked late are registered by a 'register' op)."""
+        if hi in self.registered:
+            return
+        h = self.sc['handlers'][hi]
+        bus = self.buses[h['bus']]
+        if h.get('kind') == 'forward':
+            fwd = self.buses[h['to']].dispatch
+            self.handler_objs.append(fwd)
+            self.handler_desc[id(fwd)] = ('fwd', h['bus'], h['to'], hi)
+            bus.on(h.get('pattern', '*') if h.get('by') != 'class' or h.get('pattern', '*') == '*' else EVT[h['pattern']], fwd)
+        else:
+            fn = make_handler(self, hi, h)
+            self.handler_objs.append(fn)
+            self.handler_desc[id(fn)] = ('h', hi)
+            pat = h['pattern']
+            bus.on(EVT[pat] if (h.get('by', 'class') == 'class' and pat != '*') else pat, fn)
+        self.registered.add(hi)
+        self.rec('register', hi, h['bus'], actor)
 
     def new_event(self, typ, depth, opts, actor, sid):
         self.nev += 1
@@ -283,6 +304,8 @@ async def run_prog(w: World, prog, actor: str, depth: int, in_handler: bool, sid
             if j < len(w.caller_tasks) and not w.caller_tasks[j].done():
                 w.rec('cancel', f'c{j}', actor)
                 w.caller_tasks[j].cancel()
+        elif o == 'register':
+            w.register_handler(op[1], actor)
         elif o == 'results':
             b = binds.get(op[1])
             if b is not None and b[2]:
@@ -731,18 +754,8 @@ def run_scenario(sc: dict, watch_factory=None, keep_world=False):
             if fs is not None:
                 fs.on_op = lambda kind, path, fault, n: w.rec('io', kind, path, fault, n)
         for hi, h in enumerate(sc['handlers']):
-            bus = w.buses[h['bus']]
-            if h.get('kind') == 'forward':
-                fwd = w.buses[h['to']].dispatch
-                w.handler_objs.append(fwd)
-                w.handler_desc[id(fwd)] = ('fwd', h['bus'], h['to'], hi)
-                bus.on(h.get('pattern', '*') if h.get('by') != 'class' or h.get('pattern', '*') == '*' else EVT[h['pattern']], fwd)
-            else:
-                fn = make_handler(w, hi, h)
-                w.handler_objs.append(fn)
-                w.handler_desc[id(fn)] = ('h', hi)
-                pat = h['pattern']
-                bus.on(EVT[pat] if (h.get('by', 'class') == 'class' and pat != '*') else pat, fn)
+            if not h.get('late'):
+                w.register_handler(hi)
         w.rec('start')
         for ci, c in enumerate(sc['callers']):
             w.caller_tasks.append(loop.create_task(caller(ci, c)))
